@@ -155,21 +155,23 @@ fn tier_bounds(thorough: bool) -> (usize, usize) {
 
 /// Child-process job: all cases of one program; with `twice` every case is run twice in this
 /// process and compared. Prints one digest line per case for the cross-process comparison.
-pub fn program_job(name: &str, job: &Value) -> ! {
+pub fn program_job(name: &str, job: &Value) -> Stats {
     let mut st = Stats::new();
     let d = program_cases(name, job["bound"].as_u64().unwrap() as usize, job["max_len"].as_u64().unwrap() as usize, job["twice"].as_bool().unwrap(), &mut st);
+    let mut text = String::new();
     for (k, v) in d {
-        println!("D\t{k}\t{v}");
+        text.push_str(&format!("D\t{name}\t{k}\t{v}\n"));
     }
-    crate::jobs::finish_job(&st);
+    print!("{text}");
+    st
 }
 
-fn digests_of(lines: &[String]) -> BTreeMap<String, u64> {
+fn digests_of(lines: &[String]) -> BTreeMap<(String, String), u64> {
     let mut m = BTreeMap::new();
     for l in lines {
         let f: Vec<&str> = l.split('\t').collect();
-        if f.len() == 3 && f[0] == "D" {
-            m.insert(f[1].to_string(), f[2].parse::<u64>().unwrap());
+        if f.len() == 4 && f[0] == "D" {
+            m.insert((f[1].to_string(), f[2].to_string()), f[3].parse::<u64>().unwrap());
         } else if l.starts_with("  ") {
             println!("{l}");
         }
@@ -191,73 +193,56 @@ pub fn run(rep: &mut Report) {
     rep.bound("deviation_bound", bound);
     rep.bound("max_bytes", max_len);
     rep.bound("programs", C38_PROGRAMS.len());
-    let cross = std::sync::Mutex::new(Stats::new());
-    let s = par_map(C38_PROGRAMS.len(), ncpu().min(6), |i| {
-        let name = C38_PROGRAMS[i];
-        let job = |twice: bool| crate::jobs::spawn_job(&json!({"job": "c38prog", "program": name, "bound": bound, "max_len": max_len, "twice": twice}));
-        let crash = |what: String| {
-            let mut st = Stats::new();
-            st.eval();
-            st.violation(format!("C38/{name}/simulator-crash"), format!("program {name}: the simulating process died: {what}"), json!({"program": name, "crash": true}));
-            st
-        };
-        let first = match job(true) {
-            Ok(r) => r,
-            Err(c) => return crash(c),
-        };
-        let second = match job(false) {
-            Ok(r) => r,
-            Err(c) => return crash(c),
-        };
-        let mine = digests_of(&first.lines);
-        let theirs = digests_of(&second.lines);
-        let mut st = Stats::new();
-        if mine.keys().ne(theirs.keys()) {
+    let specs = |twice: bool| -> Vec<Value> { C38_PROGRAMS.iter().map(|n| json!({"program": n, "bound": bound, "max_len": max_len, "twice": twice})).collect() };
+    let t = std::time::Instant::now();
+    let (first, lines1) = crate::jobs::run_programs("c38prog", &specs(true), "C38");
+    println!("  first process: {} executions, {:.1}s", first.evaluations, t.elapsed().as_secs_f64());
+    let t = std::time::Instant::now();
+    let (second, lines2) = crate::jobs::run_programs("c38prog", &specs(false), "C38");
+    println!("  second process: {} executions, {:.1}s", second.evaluations, t.elapsed().as_secs_f64());
+    let mine = digests_of(&lines1);
+    let theirs = digests_of(&lines2);
+    let mut st = Stats::new();
+    for v in second.violations {
+        st.violation(v.key, v.what, v.replay); // crashes of the second process
+    }
+    for name in C38_PROGRAMS {
+        let a: Vec<&String> = mine.keys().filter(|k| k.0 == name).map(|k| &k.1).collect();
+        let b: Vec<&String> = theirs.keys().filter(|k| k.0 == name).map(|k| &k.1).collect();
+        if a != b && !a.is_empty() && !b.is_empty() {
             // a different SET of cases means the decision trees differ between processes
-            let missing = mine.keys().find(|k| !theirs.contains_key(*k));
-            let extra = theirs.keys().find(|k| !mine.contains_key(*k));
+            let missing = a.iter().find(|k| !b.contains(k));
+            let extra = b.iter().find(|k| !a.contains(k));
             st.violation(
                 format!("C38/{name}/cross-process"),
-                format!("program {name}: a second process enumerated {} cases, the first {}: only in the first {missing:?}, only in the second {extra:?} (branching factors differ between processes)", theirs.len(), mine.len()),
+                format!("program {name}: a second process enumerated {} cases, the first {}: only in the first {missing:?}, only in the second {extra:?} (branching factors differ between processes)", b.len(), a.len()),
                 json!({"program": name, "case": missing.or(extra)}),
             );
         }
-        for (k, v) in &mine {
-            st.eval();
-            st.nontrivial(&(name, k));
-            st.outcome(v);
-            if let Some(w) = theirs.get(k)
-                && w != v
-            {
-                st.violation(
-                    format!("C38/{name}/cross-process"),
-                    format!("program {name}: case {k} gives a different (decision log, outputs, verdict) in a second process"),
-                    json!({"program": name, "case": k}),
-                );
-            }
+    }
+    for (k, v) in &mine {
+        st.eval();
+        st.nontrivial(k);
+        st.outcome(v);
+        if let Some(w) = theirs.get(k)
+            && w != v
+        {
+            st.violation(
+                format!("C38/{}/cross-process", k.0),
+                format!("program {}: case {} gives a different (decision log, outputs, verdict) in a second process", k.0, k.1),
+                json!({"program": k.0, "case": k.1}),
+            );
         }
-        cross.lock().unwrap().merge(st);
-        first.stats
-    });
-    rep.section("same_process", s);
-    rep.section("second_process", cross.into_inner().unwrap());
+    }
+    rep.section("same_process", first);
+    rep.section("second_process", st);
 }
 
 pub fn replay(case: &Value) -> bool {
-    let name = case["program"].as_str().expect("replay case without program");
-    if case["crash"].as_bool() == Some(true) {
-        let (bound, max_len) = tier_bounds(false);
-        return match crate::jobs::spawn_job(&json!({"job": "c38prog", "program": name, "bound": bound, "max_len": max_len, "twice": true})) {
-            Ok(_) => {
-                println!("replay: the child process survived");
-                false
-            }
-            Err(c) => {
-                println!("replay: VIOLATION the simulating process died: {c}");
-                true
-            }
-        };
+    if case["section"].as_str() == Some("crash") {
+        return crate::jobs::replay_crash(case);
     }
+    let name = case["program"].as_str().expect("replay case without program");
     let e = corpus::build(name, prog_n(name));
     let mut bad = false;
     if let Some(ch) = case["choices"].as_array() {
